@@ -21,6 +21,7 @@ var (
 	WillSpawnFunc     func() uint64
 	GoStartFunc       func(id uint64)
 	GoEndFunc         func()
+	GoDoneFunc        func(recovered interface{})
 )
 
 // UID lets a simulator supply client and datatype ids.
@@ -95,5 +96,17 @@ func GoStart(id uint64) {
 func GoEnd() {
 	if GoEndFunc != nil {
 		GoEndFunc()
+	}
+}
+
+// GoDone is GoEnd for goroutines wrapped by the simulation's source rewriting: it is deferred as
+// func() { GoDone(recover()) }, so the simulator sees (and decides about) a panic of that goroutine.
+func GoDone(recovered interface{}) {
+	if GoDoneFunc != nil {
+		GoDoneFunc(recovered)
+		return
+	}
+	if recovered != nil {
+		panic(recovered)
 	}
 }
